@@ -121,7 +121,26 @@ def _rat(fr: Fraction):
 
 
 def fingerprint(term) -> int:
-    return zlib.crc32(term.sexpr().encode())
+    """Order-insensitive fingerprint of a condition: the set of its free constants and applied
+    function names.  (z3.simplify orders AC arguments by internal ids, so the printed form of the
+    same condition is not stable across re-executions; this is.)"""
+    names = set()
+    seen = set()
+    stack = [term]
+    n = 0
+    while stack and n < 20000:
+        t = stack.pop()
+        i = t.get_id()
+        if i in seen:
+            continue
+        seen.add(i)
+        n += 1
+        if z3.is_app(t):
+            k = t.decl().kind()
+            if k == z3.Z3_OP_UNINTERPRETED:
+                names.add(t.decl().name())
+            stack.extend(t.children())
+    return zlib.crc32(",".join(sorted(names)).encode())
 
 
 # --------------------------------------------------------------------------------------
